@@ -55,8 +55,9 @@ func c13Eligible(a system.IP) bool {
 	return ip.Is6() && !ip.IsLinkLocalUnicast() && a.Address.Bits() == 64 && !a.Temporary && !a.Tentative
 }
 
-func c13Apply(c c13Case, addrs []system.IP) ([]ndp.Option, error) {
-	p := &Prefix{
+// c13Plugin builds the plugin once; cur is the listing its address source returns.
+func c13Plugin(c c13Case, cur *[]system.IP) *Prefix {
+	return &Prefix{
 		Auto:              true,
 		Prefix:            netip.MustParsePrefix("::/64"),
 		OnLink:            c.Stanza.OnLink,
@@ -68,9 +69,17 @@ func c13Apply(c c13Case, addrs []system.IP) ([]ndp.Option, error) {
 			if c.SrcErr {
 				return nil, errVerifSource
 			}
-			return vkCopyIPs(addrs), nil
+			return vkCopyIPs(*cur), nil
 		},
 	}
+}
+
+func c13Apply(c c13Case, addrs []system.IP) ([]ndp.Option, error) {
+	cur := addrs
+	return c13ApplyOn(c13Plugin(c, &cur))
+}
+
+func c13ApplyOn(p *Prefix) ([]ndp.Option, error) {
 	before := *p
 	ra := &ndp.RouterAdvertisement{Options: []ndp.Option{vkSentinel()}}
 	err := p.Apply(ra)
@@ -152,6 +161,29 @@ func c13Prop(k *verifkit.Kit) func(c c13Case) error {
 					sig = "C13/wrong-stanza-values"
 				}
 				return verifkit.Violf(sig, "option %d: want %+v got %+v (expected set %v)", i, exp, *pi, want)
+			}
+		}
+		// history on ONE plugin object: the listing changes between RAs (addresses come and
+		// go); every RA must reflect the listing at that moment, not an earlier one
+		if len(c.Addrs) > 1 {
+			cur := c.Addrs
+			pl := c13Plugin(c, &cur)
+			for step, list := range [][]system.IP{c.Addrs, c.Addrs[1:], c.Addrs[:len(c.Addrs)/2], c.Addrs} {
+				cur = list
+				g, err := c13ApplyOn(pl)
+				if err != nil {
+					return verifkit.Violf("C13/unexpected-error", "Apply %d on the same plugin failed: %v", step, err)
+				}
+				w := verifref.ExpandPrefixes(list)
+				var gp []netip.Prefix
+				for _, o := range g {
+					if pi, ok := o.(*ndp.PrefixInformation); ok {
+						gp = append(gp, netip.PrefixFrom(pi.Prefix, int(pi.PrefixLength)))
+					}
+				}
+				if fmt.Sprint(gp) != fmt.Sprint(w) {
+					return verifkit.Violf("C13/stale-or-accumulated-state", "Apply %d on the same plugin with listing %v: want %v got %v", step, list, w, gp)
+				}
 			}
 		}
 		// metamorphic: order and multiplicity of the OS listing are irrelevant
